@@ -79,7 +79,7 @@ func ExhaustiveC10(e *hx.Env, r *hx.Report, prop string, mon plugin.Monitor, dep
 	for d := 0; d <= depth && len(frontier) > 0 && time.Now().Before(deadline); d++ {
 		results := make([]result, len(frontier))
 		var wg sync.WaitGroup
-		sem := make(chan struct{}, 32)
+		sem := make(chan struct{}, 256) // sleep-bound: a Bind answered Conflict sits out the 3 s retry loop of the real code
 		for i := range frontier {
 			wg.Add(1)
 			sem <- struct{}{}
